@@ -30,8 +30,11 @@ for sid in sorted(os.listdir(os.path.join(VERIF, "seeded"))):
         c = subprocess.run(cmd, cwd=VERIF, env=env, stdout=subprocess.PIPE, stderr=subprocess.STDOUT)
         out = c.stdout.decode(errors="replace")
         cls = [l for l in out.splitlines() if l.startswith("violation class")]
-        print("%-8s %s demo_exit=%d check_exit=%d %s" % (sid, meta["property"], demo, c.returncode, cls[0][:150] if cls else ""))
-        if c.returncode != 1 or demo != 1:
+        want = 0 if meta.get("expect_on_current_tree") == "pass" else 1
+        print("%-8s %s demo_exit=%d check_exit=%d %s%s" % (sid, meta["property"], demo, c.returncode,
+                                                         cls[0][:150] if cls else "",
+                                                         " (neutralised by a later fix: expected green)" if want == 0 else ""))
+        if c.returncode != want or demo != want:
             ok = False
     finally:
         shutil.rmtree(tmp, ignore_errors=True)
